@@ -258,6 +258,20 @@ def scenarios(ctx):
                 if key in p:
                     p[key] *= 1.0137
         out.append(spec)
+    # crowded cells: many units per cell, no occupant limit, soft pair events (which draw random numbers), long enough for
+    # units to enter and leave cells many times before a dump: the order in which a cell lists its occupants is program state
+    for i in range(ctx.pick(2, 8)):
+        spec = suite.gen_spec(rng, "soft_cells")
+        p = spec["params"]
+        dim = p["dim"]
+        p["n"] = 12
+        p["positions"] = suite.lattice_positions(rng, dim, p["lengths"], 12, 0.02 * min(p["lengths"]))
+        p["initial_active"] = rng.randrange(12)
+        p["cells"] = {"cells_per_side": [3] * dim, "layers": 1, "max_occupants": 0, "far": False, "veto": False, "points_per_side": 2}
+        p["end"] = rng.choice([6.3, 9.7])
+        spec["dump_interval"] = p["end"] / rng.choice([5.3, 9.1])
+        spec["family"] = "soft_cells_crowded"
+        out.append(spec)
     return out
 
 
